@@ -13,7 +13,7 @@ from collections import Counter
 from mc.engine import e1
 from mc.engine.core import Collector, Result, Violation, permuted
 
-BOUNDS = {"quick": dict(width=2, depth=4, track_inputs=(False, True)), "thorough": dict(width=2, depth=5, track_inputs=(False, True))}
+BOUNDS = {"quick": dict(width=2, depth={False: 4, True: 3}, track_inputs=(False, True)), "thorough": dict(width=2, depth={False: 5, True: 4}, track_inputs=(False, True))}
 
 
 def _wire_key(w):
@@ -28,6 +28,7 @@ class S:
         self.wires = [_wire_key(w) for w in d.inputs()]  # all wires produced so far (same keys in both hugrs)
         self.done = False
         self.n = 0
+        self.cmds = {}  # the same Command object is handed to the builder whenever a command repeats
 
 
 def dump(h):
@@ -158,12 +159,18 @@ class Machine:
         elif kind in ("add", "extend"):
             coms = [[ev[1], ev[2], ev[3]]] if kind == "add" else [[c[0], c[1], False] for c in ev[1]]
 
+            def command(name, args):
+                key = repr((name, args))
+                if key not in s.cmds:
+                    s.cmds[key] = self._op(name)(*[self._resolve(s, a, "tracked") for a in args])
+                return s.cmds[key]
+
             def tracked_call():
                 if kind == "add":
                     name, args, md = coms[0]
                     kw = {"metadata": {"md": [s.n, "é"]}} if md else {}
-                    return [t.add(self._op(name)(*[self._resolve(s, a, "tracked") for a in args]), **kw)]
-                return t.extend(*[self._op(name)(*[self._resolve(s, a, "tracked") for a in args]) for name, args, _ in coms])
+                    return [t.add(command(name, args), **kw)]
+                return t.extend(*[command(name, args) for name, args, _ in coms])
 
             def ref_call():
                 # validate every lookup first (a failing command adds nothing in the reference)
@@ -234,7 +241,7 @@ def run(tier: str, seed: int) -> Result:
     per = {}
     for ti in b["track_inputs"]:
         m = Machine(b["width"], ti, seed)
-        st = e1.explore(m, b["depth"], col, sig_prefix="")
+        st = e1.explore(m, b["depth"][ti], col, sig_prefix="")
         tot["states"] += st.states
         tot["transitions"] += st.transitions
         tot["outcomes"] |= st.outcomes
@@ -253,7 +260,7 @@ def run(tier: str, seed: int) -> Result:
         "wires; after every call the tracked list and both HUGRs (nodes, links, metadata) are compared",
         "samples": col.samples or [[["track_inputs"], ["add", "Noop", [["i", 0]], True]]],
         "exhaustive": True,
-        "bounds": {"width": b["width"], "depth": b["depth"]},
+        "bounds": {"width": b["width"], "depth": {str(k): v for k, v in b["depth"].items()}},
         "per_configuration": per,
         "distinct_outcomes": len(tot["outcomes"]),
     }
